@@ -146,34 +146,48 @@ def theorem_names(vfile):
 
 
 def print_assumptions(pid, thms, timeout=600, tag=None):
-    """returns dict thm -> list of axiom names ([] = closed)"""
+    """returns dict thm -> list of axiom names ([] = closed).  The theorems are split into shards that run in
+    parallel coqc processes (Print Assumptions walks whole proof terms: ~0.25 s per large theorem)."""
     d = (BUILD_ALT if ALT else BUILD) + '/assum'
     os.makedirs(d, exist_ok=True)
-    f = '%s/Assum_%s.v' % (d, tag or pid)
-    with open(f, 'w') as fh:
-        fh.write('From V Require Import Props.%s.\n' % pid)
-        for t in thms:
-            fh.write('Print Assumptions %s.\n' % t)
-    rc, out = sh(['coqc', '-noglob', '-Q', COQ, 'V', f], cwd=d, timeout=timeout)
-    if rc != 0:
-        raise RuntimeError('Print Assumptions run failed:\n' + out[-2000:])
-    blocks, cur = [], None
-    # output is a sequence of blocks, one per Print Assumptions, in order
-    for line in out.splitlines():
-        if line.startswith('Closed under the global context'):
-            cur = None
-            blocks.append([])
-        elif line.startswith('Axioms:'):
-            cur = []
-            blocks.append(cur)
-        elif cur is not None and line and not line[0].isspace():
-            m = re.match(r"^([A-Za-z_][A-Za-z0-9_\.']*)", line)
-            if m:
-                cur.append(m.group(1))
-    if len(blocks) != len(thms):
-        allax = sorted({a for b in blocks for a in b})
-        return {t: allax for t in thms}, out
-    return dict(zip(thms, blocks)), out
+    if not thms:
+        return {}, ''
+    nsh = max(1, min(NCPU, (len(thms) + 23) // 24))
+    shards = [thms[i::nsh] for i in range(nsh)]
+    procs = []
+    for k, part in enumerate(shards):
+        f = '%s/Assum_%s_%d.v' % (d, tag or pid, k)
+        with open(f, 'w') as fh:
+            fh.write('From V Require Import Props.%s.\n' % pid)
+            for t in part:
+                fh.write('Print Assumptions %s.\n' % t)
+        procs.append((part, subprocess.Popen(['timeout', str(timeout), 'coqc', '-noglob', '-Q', COQ, 'V', f], cwd=d,
+                                             stdout=subprocess.PIPE, stderr=subprocess.STDOUT, text=True)))
+    result, raw = {}, ''
+    for part, pr in procs:
+        out, _ = pr.communicate()
+        raw += out
+        if pr.returncode != 0:
+            raise RuntimeError('Print Assumptions run failed:\n' + out[-2000:])
+        blocks, cur = [], None
+        # output is a sequence of blocks, one per Print Assumptions, in order
+        for line in out.splitlines():
+            if line.startswith('Closed under the global context'):
+                cur = None
+                blocks.append([])
+            elif line.startswith('Axioms:'):
+                cur = []
+                blocks.append(cur)
+            elif cur is not None and line and not line[0].isspace():
+                m = re.match(r"^([A-Za-z_][A-Za-z0-9_\.']*)", line)
+                if m:
+                    cur.append(m.group(1))
+        if len(blocks) != len(part):
+            allax = sorted({a for b in blocks for a in b})
+            result.update({t: allax for t in part})
+        else:
+            result.update(dict(zip(part, blocks)))
+    return result, raw
 
 
 def axioms_ok(ax, extra):
